@@ -4,24 +4,366 @@
 
 namespace hist { namespace special {
 
-inline void init_zygote() {}
+// ---------------------------------------------------------------------------------------------
+// pristine-process solo runs (C12): a zygote forked before the first library call forks one child
+// per solo run; the child executes one script alone and sends its observation trace back.
+static int zy_to = -1, zy_from = -1;
+static pid_t zy_pid = -1;
+
+inline bool write_all(int fd, const void* p, size_t n) {
+  const char* c = (const char*)p;
+  while (n) { ssize_t w = write(fd, c, n); if (w <= 0) return false; c += w; n -= (size_t)w; }
+  return true;
+}
+inline bool read_all(int fd, void* p, size_t n) {
+  char* c = (char*)p;
+  while (n) { ssize_t r = read(fd, c, n); if (r <= 0) return false; c += r; n -= (size_t)r; }
+  return true;
+}
+
+inline void zygote_loop(int rfd, int wfd) {
+  for (;;) {
+    uint32_t len;
+    if (!read_all(rfd, &len, 4)) _exit(0);
+    std::string txt(len, 0);
+    if (len && !read_all(rfd, &txt[0], len)) _exit(0);
+    pid_t c = fork();
+    if (c == 0) {
+      History h; std::string err;
+      std::vector<uint64_t> out;
+      if (from_text(txt, h, &err)) {
+        Ctx cx; cx.enabled = 0; cx.want_trace = true;
+        RunResult rr = run_history(h, cx);
+        for (auto& t : rr.traces[0]) out.push_back(t.h);
+      }
+      uint32_t n = (uint32_t)out.size(), tag = 0x54524143;
+      write_all(wfd, &tag, 4); write_all(wfd, &n, 4);
+      if (n) write_all(wfd, out.data(), n * 8);
+      _exit(0);
+    }
+    int status = 0;
+    waitpid(c, &status, 0);
+    uint32_t tag = 0x454E4421, st = (uint32_t)status;
+    write_all(wfd, &tag, 4); write_all(wfd, &st, 4);
+  }
+}
+
+inline void init_zygote() {
+  int a[2], b[2];
+  if (pipe(a) || pipe(b)) return;
+  pid_t p = fork();
+  if (p == 0) { close(a[1]); close(b[0]); zygote_loop(a[0], b[1]); _exit(0); }
+  close(a[0]); close(b[1]);
+  zy_to = a[1]; zy_from = b[0]; zy_pid = p;
+}
+
+// returns false if the solo child died; trace in out
+inline bool solo_trace(const Script& s, std::vector<uint64_t>& out, uint32_t* status) {
+  History h; h.scripts.push_back(s);
+  std::string txt = to_text(h);
+  uint32_t len = (uint32_t)txt.size();
+  out.clear(); *status = 0;
+  if (zy_to < 0) return false;
+  if (!write_all(zy_to, &len, 4) || !write_all(zy_to, txt.data(), len)) return false;
+  bool got = false;
+  for (;;) {
+    uint32_t tag, v;
+    if (!read_all(zy_from, &tag, 4) || !read_all(zy_from, &v, 4)) return false;
+    if (tag == 0x54524143) { out.resize(v); if (v && !read_all(zy_from, out.data(), v * 8)) return false; got = true; }
+    else if (tag == 0x454E4421) { *status = v; return got; }
+    else return false;
+  }
+}
+
+// ---------------------------------------------------------------------------------------------
+struct Extra { bool check_code = false; uint32_t cycle_limit_n = 100000; std::set<std::string> known; };
+static Extra g_extra;
 
 inline PropSpec full_spec(const std::string& id, const Tier& t) {
   PropSpec p = prop_spec(id, t);
+  GenOpts g;
+  if (t.thorough) { g.max_k_ldpc = 400; g.max_n_ldpc = 700; } else { g.max_k_ldpc = 60; g.max_n_ldpc = 120; }
+  { std::set<std::string> keep = g_extra.known; g_extra = Extra(); g_extra.known = keep; }
+  if (id == "C05") {
+    p.id = "C05"; p.enabled = O_CODE | O_ENC; p.kind = 4; g.codecs = GC_LDPC;
+    if (t.thorough) { g.max_k_ldpc = 3000; g.max_n_ldpc = 5000; } else { g.max_k_ldpc = 300; g.max_n_ldpc = 600; }
+    p.go = g; g_extra.check_code = true;
+    p.nontrivial = [](uint64_t f) { return (f & F_EXTRA) || (f & F_MULTI); };
+    p.rule = "LDPC (k, r, N1, seed) with an identity-payload encoder session and a decoder session, after a generated prefix of 0-3 other sessions (created/used/released or left alive); non-trivial = the reference construction took the 'no choice left' or 'extra entries' branch, or the prefix is non-empty; distinct = distinct history text";
+  } else if (id == "C09") {
+    p.id = "C09"; p.enabled = O_PARAM | O_SOUND | O_ENC | O_MDS | O_STATUS; p.kind = 6; p.go = g; g_extra.cycle_limit_n = 3000;
+    p.nontrivial = [](uint64_t f) { return (f & (F_BOUNDARY | F_BADCALL | F_REJECTED)) != 0; };
+    p.rule = "configuration from the boundary grid (0, 1, 2, each limit-1/limit/limit+1, 2^16+-1, 2^31-1, 2^31, 2^32-1 for k, r, L; m, N1, seed sets) or random interior point, followed by a full cycle when accepted and feasible, with single-argument corruptions of valid calls; non-trivial = a coordinate at a limit, or a rejected configuration, or a corrupted call; distinct = distinct history text";
+  } else if (id == "C12") {
+    p.id = "C12"; p.enabled = O_INDEP; p.kind = 3; g.max_k_ldpc = t.thorough ? 120 : 40; g.max_n_ldpc = t.thorough ? 250 : 80; g.max_n_rs = 60; p.go = g;
+    p.nontrivial = [](uint64_t f) { return (f & F_MULTI) != 0; };
+    p.rule = "2-4 session scripts over all codecs (siblings differing in one parameter included) and a generated interleaving; each script is also run alone in a pristine forked process and the observation traces (statuses, repair bytes, completion, table contents, callback multisets) are compared; non-trivial = >= 2 sessions alive at once with interleaved steps; distinct = distinct history text";
+  } else if (id == "C15") {
+    p.id = "C15"; p.enabled = O_LASTNULL | O_SOUND; p.kind = 5; g.codecs = GC_LDPC; g.even_n1_bias = 1;
+    if (t.thorough) { g.max_k_ldpc = 2000; g.max_n_ldpc = 3000; } else { g.max_k_ldpc = 200; g.max_n_ldpc = 400; }
+    p.go = g;
+    p.nontrivial = [](uint64_t f) { return (f & F_LASTNULL) != 0; };
+    p.rule = "LDPC configuration biased to even N1; encoder session (all repairs, generated payload) and decoder session whose sender skips symbol n-1; non-trivial = IS_LAST_SYMBOL_NULL reported true; distinct = distinct history text";
+  }
   return p;
 }
 
+inline void apply_extra(Ctx& cx) { cx.check_code = g_extra.check_code; cx.cycle_limit_n = g_extra.cycle_limit_n; cx.known_sigs = g_extra.known; }
+
+// ---- C05 -------------------------------------------------------------------------------------
+inline History gen_code_case(const PropSpec& ps, Chooser& ch) {
+  History h;
+  GenOpts small; small.max_k_ldpc = 40; small.max_n_ldpc = 80; small.max_n_rs = 40; small.big_L = false;
+  uint32_t npre = ch.next() % 4;
+  for (uint32_t i = 0; i < npre; i++) h.scripts.push_back(ch.coin(1, 2) ? gen_encoder_script(ch, small) : gen_decoder_script(ch, small));
+  Config c = gen_config(ch, ps.go);
+  // grid-flavoured k values now and then
+  if (ch.coin(1, 4)) {
+    c.k = ch.pick<uint32_t>({1, 2, 3, 5, 10, 31, 32, 33, 100, 1000});
+    if (c.k > ps.go.max_k_ldpc) c.k = ps.go.max_k_ldpc;
+    if (c.k + c.r > ps.go.max_n_ldpc) c.r = std::max<uint32_t>(c.N1, ps.go.max_n_ldpc - c.k);
+  }
+  c.payload = PAY_IDENTITY;
+  Script e; e.cfg = c; e.role = ch.coin(1, 5) ? ROLE_BOTH : ROLE_ENC;
+  { Step sp; sp.op = OP_SETPARAMS; e.steps.push_back(sp); }
+  for (uint32_t i = 0; i < c.r; i++) { Step b; b.op = OP_BUILD; b.esi = c.k + i; e.steps.push_back(b); }
+  Script d; d.cfg = c; d.role = ROLE_DEC; d.cbmode = 1;
+  { Step sp; sp.op = OP_SETPARAMS; d.steps.push_back(sp); }
+  std::vector<uint32_t> rec = gen_received(ch, ps.go, c);
+  if (rec.size() > 200) rec.resize(200);
+  for (uint32_t x : rec) { Step s; s.op = OP_NEW; s.esi = x; d.steps.push_back(s); }
+  bool dec_first = ch.coin(1, 2);
+  if (dec_first) { h.scripts.push_back(d); h.scripts.push_back(e); } else { h.scripts.push_back(e); h.scripts.push_back(d); }
+  // interleaving: prefix sessions first; each either complete (incl. release) or left alive
+  for (uint32_t i = 0; i < npre; i++) {
+    bool alive = ch.coin(1, 3);
+    size_t cnt = h.scripts[i].steps.size() + (alive ? 1 : 2);
+    for (size_t j = 0; j < cnt; j++) h.inter.push_back(i);
+  }
+  return h;
+}
+
+// ---- C15 -------------------------------------------------------------------------------------
+inline History gen_lastnull_case(const PropSpec& ps, Chooser& ch) {
+  History h;
+  Config c = gen_config(ch, ps.go);
+  if (c.payload == PAY_ZERO) c.payload = PAY_RANDOM;
+  Script e; e.cfg = c; e.role = ROLE_ENC;
+  { Step sp; sp.op = OP_SETPARAMS; e.steps.push_back(sp); }
+  for (uint32_t i = 0; i < c.r; i++) { Step b; b.op = OP_BUILD; b.esi = c.k + i; b.flag = ch.coin(1, 8); e.steps.push_back(b); }
+  Script d; d.cfg = c; d.role = ch.coin(1, 5) ? ROLE_BOTH : ROLE_DEC; d.cbmode = 1;
+  { Step sp; sp.op = OP_SETPARAMS; d.steps.push_back(sp); }
+  std::vector<uint32_t> rec = gen_received(ch, ps.go, c);
+  uint32_t n = c.k + c.r;
+  bool use_avail = ch.coin(1, 3);
+  if (use_avail) { Step a; a.op = OP_AVAIL; for (uint32_t x : rec) if (x != n - 1) a.set.push_back(x); std::sort(a.set.begin(), a.set.end()); d.steps.push_back(a); }
+  else for (uint32_t x : rec) { if (x == n - 1) continue; Step s; s.op = OP_NEW; s.esi = x; d.steps.push_back(s); }
+  if (ch.coin(2, 3)) { Step f; f.op = OP_FINISH; d.steps.push_back(f); }
+  h.scripts.push_back(e); h.scripts.push_back(d);
+  return h;
+}
+
+// ---- C09 -------------------------------------------------------------------------------------
+static const uint32_t U31 = 0x7FFFFFFFu;
+inline std::vector<uint32_t> boundary_counts(uint32_t lim) {
+  std::vector<uint32_t> v = {0, 1, 2, lim - 1, lim, lim + 1, 65535, 65536, 65537, U31, 0x80000000u, 0xFFFFFFFFu};
+  std::sort(v.begin(), v.end()); v.erase(std::unique(v.begin(), v.end()), v.end());
+  return v;
+}
+inline void add_cycle(Chooser& ch, Script& s, bool with_bad) {
+  const Config& c = s.cfg;
+  uint32_t k = c.k, n = c.k + c.r;
+  uint64_t bs = ch.seed64();
+  auto maybe_bad = [&]() {
+    if (!with_bad || splitmix(bs) % 3) return;
+    Step b; b.op = OP_BAD; b.esi = (uint32_t)(splitmix(bs) % BAD_KINDS); b.flag = (uint32_t)splitmix(bs);
+    if (b.esi == BAD_NEW_ESI) b.flag = (uint32_t)(splitmix(bs) % 4 == 0 ? 0xFFFFFFFFu : splitmix(bs) % 3);
+    s.steps.push_back(b);
+  };
+  maybe_bad();
+  if (s.role == ROLE_ENC || (s.role == ROLE_BOTH && ch.coin(1, 2))) {
+    for (uint32_t e = k; e < n && e < k + 40; e++) { Step b; b.op = OP_BUILD; b.esi = e; b.flag = (uint32_t)(splitmix(bs) & 1); s.steps.push_back(b); maybe_bad(); }
+  } else {
+    // receive a random k-subset (RS) / everything but a few (LDPC), then finish
+    std::vector<uint32_t> all(n); std::iota(all.begin(), all.end(), 0);
+    seeded_shuffle(all, ch.seed64());
+    uint32_t cnt = c.codec == CODEC_LDPC ? (n > 3 ? n - (uint32_t)(splitmix(bs) % 3) : n) : k;
+    if (cnt > n) cnt = n;
+    for (uint32_t i = 0; i < cnt; i++) { Step st; st.op = OP_NEW; st.esi = all[i]; s.steps.push_back(st); if (i % 8 == 0) maybe_bad(); }
+    Step f; f.op = OP_FINISH; s.steps.push_back(f);
+    maybe_bad();
+    push_query(s);
+  }
+}
+inline Script param_script(const Config& c, int role) {
+  Script s; s.cfg = c; s.role = role;
+  Step sp; sp.op = OP_SETPARAMS; s.steps.push_back(sp);
+  return s;
+}
+inline History gen_param_case(const PropSpec& ps, Chooser& ch) {
+  History h;
+  Config c;
+  uint32_t which = ch.next() % 4;
+  c.payload = PAY_RANDOM; c.pseed = ch.next();
+  int role = ch.pick<int>({ROLE_DEC, ROLE_ENC, ROLE_BOTH});
+  bool boundary = ch.coin(2, 3);
+  if (which <= 1) {
+    c.codec = which == 0 ? CODEC_RS8 : CODEC_RSM;
+    c.m = which == 0 ? 8 : ch.pick<uint32_t>({8, 4, 4, 8, 0, 1, 3, 5, 7, 9, 16, 65535});
+    uint32_t lim = (which == 1 && c.m == 4) ? 15 : 255;
+    if (boundary) {
+      std::vector<uint32_t> bc = boundary_counts(lim);
+      c.k = bc[ch.next() % bc.size()];
+      uint32_t rc = ch.next() % 6;
+      // r relative to the limit on n
+      c.r = rc == 0 ? (c.k <= lim ? lim - c.k : 0) : rc == 1 ? (c.k <= lim ? lim - c.k + 1 : 1) : rc == 2 ? (c.k < lim ? lim - c.k - 1 : 0) : rc == 3 ? 1 : rc == 4 ? 0 : bc[ch.next() % bc.size()];
+    } else { uint32_t n = ch.range(2, lim); c.k = ch.range(1, n - 1); c.r = n - c.k; }
+    c.L = boundary ? ch.pick<uint32_t>({1, 0, 2, 65535, 65536, 1u << 20, 0xFFFFFFFFu}) : ch.range(1, 64);
+  } else {
+    c.codec = CODEC_LDPC;
+    uint32_t lim = 50000;
+    if (boundary) {
+      std::vector<uint32_t> bc = boundary_counts(lim);
+      bc.push_back(3); bc.push_back(10); bc.push_back(100);
+      c.k = bc[ch.next() % bc.size()];
+      uint32_t rc = ch.next() % 7;
+      c.r = rc == 0 ? (c.k <= lim ? lim - c.k : 0) : rc == 1 ? (c.k <= lim ? lim - c.k + 1 : 1) : rc == 2 ? (c.k < lim ? lim - c.k - 1 : 0) : rc == 3 ? 1 : rc == 4 ? 0 : rc == 5 ? ch.range(3, 20) : bc[ch.next() % bc.size()];
+      uint32_t nc = ch.next() % 9;
+      c.N1 = nc == 0 ? 3 : nc == 1 ? 0 : nc == 2 ? 1 : nc == 3 ? 2 : nc == 4 ? std::min<uint32_t>(255, c.r ? c.r - 1 : 0) : nc == 5 ? std::min<uint32_t>(255, c.r) : nc == 6 ? std::min<uint32_t>(255, c.r + 1) : nc == 7 ? 255 : ch.range(3, 12);
+      c.seed = ch.pick<uint32_t>({1, 0, 0x7FFFFFFEu, 0x7FFFFFFFu, 0x80000000u, 0xFFFFFFFFu, 2, 12345});
+    } else {
+      c.k = ch.range(1, 200); c.N1 = ch.range(3, 10); c.r = c.N1 + ch.range(0, 2 * c.k); c.seed = (ch.next() % 0x7FFFFFFEu) + 1;
+    }
+    c.L = boundary ? ch.pick<uint32_t>({1, 0, 2, 65535, 65536, 1u << 20, 0xFFFFFFFFu}) : ch.range(1, 64);
+    // a 4 GiB symbol cannot be cycled here and its allocation failure is not a validation verdict:
+    // 2^32-1 only on sessions that allocate nothing of that size at configuration time
+    if (c.L == 0xFFFFFFFFu && (role & ROLE_DEC) && (c.N1 % 2 == 0)) c.L = 65536;
+  }
+  // accepted configurations with tens of thousands of symbols cost ~0.3 s each under ASan: keep one in eight
+  if (cfg_valid(c) == 1 && (uint64_t)c.k + c.r > 3000 && !ch.coin(1, 8)) { c.k = ch.pick<uint32_t>({1, 2, 3, 10}); c.r = std::max<uint32_t>(c.N1, ch.pick<uint32_t>({3, 4, 10, 20})); if (c.N1 > c.r) c.N1 = c.r; if (c.N1 < 3) { c.N1 = 3; c.r = std::max<uint32_t>(c.r, 3); } }
+  Script s = param_script(c, role);
+  int valid = cfg_valid(c);
+  uint64_t n = (uint64_t)c.k + c.r;
+  if (valid == 1 && n <= 3000 && n * (uint64_t)c.L <= (1u << 24)) add_cycle(ch, s, ch.coin(1, 2));
+  else if (ch.coin(1, 3)) { Step b; b.op = OP_BAD; b.esi = BAD_NULL_SES; b.flag = ch.next(); s.steps.push_back(b); }
+  h.scripts.push_back(s);
+  return h;
+}
+inline bool is_boundary(const Config& c) {
+  uint32_t lim = c.codec == CODEC_LDPC ? 50000 : (c.codec == CODEC_RSM && c.m == 4) ? 15 : 255;
+  uint64_t n = (uint64_t)c.k + c.r;
+  auto near = [](uint64_t v, uint64_t l) { return v + 1 >= l && v <= l + 1; };
+  if (c.k <= 1 || c.r <= 1 || c.L <= 1 || near(c.k, lim) || near(n, lim)) return true;
+  if (c.codec == CODEC_LDPC && (c.N1 <= 3 || near(c.N1, c.r) || c.seed <= 1 || c.seed >= 0x7FFFFFFEu)) return true;
+  if (c.codec == CODEC_RSM && c.m != 8) return true;
+  return false;
+}
+
+// ---------------------------------------------------------------------------------------------
 inline History generate(const PropSpec& ps, Chooser& ch) {
   switch (ps.kind) {
     case 1: return gen_single_encoder(ch, ps.go);
     case 2: return ch.coin(1, 3) ? gen_single_encoder(ch, ps.go) : gen_single_decoder(ch, ps.go);
+    case 3: return gen_multi(ch, ps.go);
+    case 4: return gen_code_case(ps, ch);
+    case 5: return gen_lastnull_case(ps, ch);
+    case 6: return gen_param_case(ps, ch);
     default: return gen_single_decoder(ch, ps.go);
   }
 }
 
-inline CaseResult run_any(const History& h, const PropSpec& ps, Stats* st) { return run_case(h, ps, st); }
+inline CaseResult run_core(const History& h, const PropSpec& ps, Stats* st, bool want_trace) {
+  Ctx cx; cx.enabled = ps.enabled; cx.want_trace = want_trace; apply_extra(cx);
+  CaseResult cr;
+  if (ps.kind == 6) for (auto& s : h.scripts) if (is_boundary(s.cfg)) cx.features |= F_BOUNDARY;
+  cr.rr = run_history(h, cx, nullptr);
+  // post-run cross-session checks
+  if (ps.kind == 5 && h.scripts.size() == 2 && cr.rr.cfg_ok[0] && cr.rr.cfg_ok[1] && cr.rr.last_null[0] != cr.rr.last_null[1])
+    cx.fail(O_LASTNULL, "encoder_decoder_disagree", "encoder and decoder sessions with equal parameters report different IS_LAST_SYMBOL_NULL");
+  if (ps.kind == 3 && !cx.stop) {
+    for (size_t i = 0; i < h.scripts.size(); i++) {
+      std::vector<uint64_t> solo; uint32_t status = 0;
+      bool ok = solo_trace(h.scripts[i], solo, &status);
+      if (!ok) { cx.counters["solo_run_died"]++; continue; }
+      const auto& t = cr.rr.traces[i];
+      size_t m = std::min(t.size(), solo.size());
+      size_t d = 0; while (d < m && t[d].h == solo[d]) d++;
+      if (d < m || t.size() != solo.size()) {
+        cx.fail(O_INDEP, "trace_differs_from_solo_run", "session " + std::to_string(i) + ": observation #" + std::to_string(d) + " (" + (d < t.size() ? t[d].brief : std::string("end")) +
+                                                            ") differs from the same script run alone in a pristine process");
+        break;
+      }
+      cx.counters["solo_traces_compared"]++;
+    }
+  }
+  cr.features = cx.features; cr.notes = cx.notes;
+  if (!cx.fails.empty()) { cr.failed = true; cr.first = cx.fails[0]; }
+  if (st) {
+    st->evaluations++; st->skipped_steps += cx.skipped_steps; st->api_calls += cx.api_calls;
+    if (cx.leak_overflow) st->leak_overflow++;
+    for (auto& kv : cx.counters) st->counters[kv.first] += kv.second;
+    for (int b = 0; b < (int)(sizeof(feature_names) / sizeof(feature_names[0])); b++) if (cx.features & (1ull << b)) st->feature_counts[feature_names[b]]++;
+    st->classes[class_label(h, cx.features)]++;
+    for (auto& n : cx.notes) { st->note_sigs[n.sig]++; if (st->note_samples.size() < 4) st->note_samples.push_back(n.sig + ": " + n.msg); }
+    if (ps.nontrivial && ps.nontrivial(cx.features)) {
+      st->nontrivial++;
+      std::string txt = to_text(h);
+      if (st->distinct.insert(hash_text(txt)).second && st->samples.size() < 6 && (st->distinct.size() % 97 == 1)) st->samples.push_back(txt);
+    }
+  }
+  return cr;
+}
 
-inline History minimise_any(const History& h, const PropSpec& ps, const std::string& sig) { return minimise(h, ps, sig); }
+inline CaseResult run_any(const History& h, const PropSpec& ps, Stats* st) { return run_core(h, ps, st, ps.kind == 3); }
+
+// minimisation with the property-specific runner
+inline History minimise_any(History h, const PropSpec& ps, const std::string& sig, int budget = 500) {
+  auto fails = [&](const History& c) { CaseResult cr = run_core(c, ps, nullptr, ps.kind == 3); return cr.failed && cr.first.sig == sig; };
+  bool progress = true;
+  while (progress && budget > 0) {
+    progress = false;
+    for (size_t i = 0; h.scripts.size() > 1 && i < h.scripts.size() && budget > 0; i++) {
+      if (ps.kind == 5) break;  // C15 cases are pairs
+      History c = h; c.scripts.erase(c.scripts.begin() + i);
+      // re-index the interleaving
+      std::vector<uint32_t> in2; for (uint32_t x : h.inter) { if (x % h.scripts.size() == i) continue; uint32_t y = x % (uint32_t)h.scripts.size(); in2.push_back(y > i ? y - 1 : y); }
+      c.inter = in2; budget--;
+      if (fails(c)) { h = c; progress = true; i--; }
+    }
+    for (size_t si = 0; si < h.scripts.size(); si++) {
+      for (size_t chunk = std::max<size_t>(1, h.scripts[si].steps.size() / 2); chunk >= 1 && budget > 0; chunk /= 2) {
+        for (size_t i = 0; i + chunk <= h.scripts[si].steps.size() && budget > 0;) {
+          History c = h; auto& v = c.scripts[si].steps;
+          bool has_sp = false; for (size_t j = i; j < i + chunk; j++) if (v[j].op == OP_SETPARAMS) has_sp = true;
+          if (has_sp && chunk > 1) { i++; continue; }
+          v.erase(v.begin() + i, v.begin() + i + chunk); budget--;
+          if (fails(c)) { h = c; progress = true; } else i++;
+        }
+        if (chunk == 1) break;
+      }
+      for (size_t j = 0; j < h.scripts[si].steps.size(); j++) {
+        if (h.scripts[si].steps[j].op != OP_AVAIL) continue;
+        for (size_t e = 0; e < h.scripts[si].steps[j].set.size() && budget > 0;) {
+          History c = h; auto& set = c.scripts[si].steps[j].set; set.erase(set.begin() + e); budget--;
+          if (fails(c)) { h = c; progress = true; } else e++;
+        }
+      }
+      auto try_cfg = [&](std::function<void(Script&)> f) {
+        if (budget <= 0) return;
+        History c = h; f(c.scripts[si]); budget--;
+        if (to_text(c) != to_text(h) && fails(c)) { h = c; progress = true; }
+      };
+      try_cfg([](Script& s) { if (s.cfg.payload != PAY_IDENTITY) s.cfg.L = 1; });
+      try_cfg([](Script& s) { if (s.cfg.payload != PAY_IDENTITY) s.cfg.L = 8; });
+      try_cfg([](Script& s) { s.align = 0; });
+      try_cfg([](Script& s) { s.cbmask = 0; });
+      try_cfg([](Script& s) { s.cfg.pseed = 0; });
+      try_cfg([](Script& s) { if (s.cfg.codec == CODEC_LDPC && s.cfg.seed >= 1 && s.cfg.seed <= 0x7FFFFFFEu) s.cfg.seed = 1; });
+    }
+    if (!h.inter.empty() && budget > 0) { History c = h; c.inter.clear(); budget--; if (fails(c)) { h = c; progress = true; } }
+  }
+  return h;
+}
 
 template <class F>
 inline void enumerate(const std::string& prop, const Tier& t, int worker, int nworkers, uint64_t seed, F one, std::string& extra_json) {
